@@ -415,6 +415,13 @@ func parseRange(s string, size int64) ([]httpRange, error) {
 			if i > size {
 				i = size
 			}
+			if i == 0 {
+				// RFC 7233, Section 2.1: a suffix-byte-range-spec with a zero
+				// suffix-length (or any suffix of an empty representation)
+				// is not satisfiable.
+				noOverlap = true
+				continue
+			}
 			r.start = size - i
 			r.length = size - r.start
 		} else {
